@@ -186,8 +186,17 @@ def _run_cache(pid: str, tier: str, seed: int, spec: dict, scale: float = 1.0, s
 
 
 PROPS["C20"] = {"theorems": ["Store.get_ok", "Cache.step_ok", "C20_transparent", "C20_transparent_empty", "C20_runs",
-                             "C20_second_call_hits", "C20_run_count", "C06_agree"],
-                "modules": ["KodaModel.Properties.C20", "KodaModel.Properties.C06"],
+                             "C20_second_call_hits", "C20_run_count", "C06_agree",
+                             "src_cache_sync", "src_cache_async", "src_cache_hist", "src_cache_transparent"],
+                "modules": ["KodaModel.Properties.C20", "KodaModel.Properties.C06", "KodaModel.Properties.C20Src"],
+                "level_note": "C20_transparent etc. are proved about Cache.step / Cache.runHist for every history, store, key "
+                              "equivalence and wrapped validator; Cache.step is tied to the source twice: (1) TRANSLATOR - "
+                              "harness/pysrc.py rewrites Generated/CacheSrc.lean from the AST of CacheValidatorBase.__call__ / "
+                              "validate_async on every run and src_cache_sync / src_cache_async / src_cache_hist prove the "
+                              "interpreted source equal to Cache.step / Cache.runHist (so src_cache_transparent is about the "
+                              "source's own statements); (2) the correspondence stream over real dict-backed subclasses.  "
+                              "Trusted: Lean kernel + propext; the translator (harness/pysrc.py) and the meaning "
+                              "KodaModel/PyCache.lean gives the Python subset; the faithful-store reading of the cache_* hooks",
                 "run": _run_cache, "quick_n": 1500, "thorough_n": 20000,
                 "rule": "histories of 0..12 (quick) / 0..200 (thorough) sync and async calls through a dict-backed "
                         "CacheValidatorBase subclass, over a pool of 1-7 inputs with repeats, identity- and typed-equality-"
